@@ -154,4 +154,34 @@ func (t *tr) c17EmitThrottleCriticalSection() {
 	}
 	t.p("(* acmeClient.throttle, operations on rateLimitersMu / rateLimiters in source order: %s *)\n", seq)
 	t.p("Definition throttle_lookup_insert_one_critical_section : bool := %v.\n", seq == "Lock lookup insert Unlock")
+	// the insertion must be guarded by exactly `!ok` (ok = the key was found): a limiter that is
+	// registered is never replaced
+	guards := []string{}
+	ast.Inspect(fd.Body, func(n ast.Node) bool {
+		is, ok := n.(*ast.IfStmt)
+		if !ok {
+			return true
+		}
+		inserts := false
+		ast.Inspect(is.Body, func(m ast.Node) bool {
+			if as, ok := m.(*ast.AssignStmt); ok {
+				for _, l := range as.Lhs {
+					if ix, ok := l.(*ast.IndexExpr); ok && exprStr(ix.X) == "rateLimiters" {
+						inserts = true
+					}
+				}
+			}
+			return true
+		})
+		if inserts {
+			g := "?"
+			if ue, ok := is.Cond.(*ast.UnaryExpr); ok && ue.Op == token.NOT {
+				g = "!" + exprStr(ue.X)
+			}
+			guards = append(guards, g)
+		}
+		return true
+	})
+	t.p("(* acmeClient.throttle: guard(s) of the insertion into rateLimiters: %s *)\n", strings.Join(guards, ", "))
+	t.p("Definition throttle_insert_guard_is_absent_only : bool := %v.\n", len(guards) == 1 && guards[0] == "!ok")
 }
